@@ -368,14 +368,27 @@ fn derive_copy_shape(def: &CopyDef, symbol_table: &mut BTreeMap<Rc<str>, Shape>)
                 })
                 .collect::<BTreeMap<Rc<str>, Shape>>();
             // 1. Do our copyable fields have the right names and shapes based on mdef.items.
+            let mut as_declared = true;
             for (sym, shape) in mdef.items.iter() {
                 if let Some(s) = arg_fields.get(&sym.val) {
                     if let Shape::TypeErr(pos, msg) = shape.narrow(s, symbol_table) {
                         return Shape::TypeErr(pos, msg);
                     }
+                    as_declared = as_declared
+                        && shape.equivalent(s, symbol_table)
+                        && s.equivalent(shape, symbol_table);
                 }
             }
-            //  1.1 If so then return the ret as our shape.
+            //  1.1 If so then return the ret as our shape. It was derived
+            //  from the defaults: a parameter that is given a wider tuple or
+            //  a list with other elements here can make the module return
+            //  something else than it does for the defaults.
+            if !as_declared {
+                return Shape::Narrowed(NarrowedShape {
+                    pos: def.pos.clone(),
+                    types: NarrowingShape::Any,
+                });
+            }
             mdef.ret.as_ref().clone()
         }
         Shape::Tuple(t_def) => {
